@@ -52,7 +52,9 @@ def share_encoder_parameters(
     # submodules of a `torch.nn.Module` from Python 3.12 onwards (they are looked up
     # statically), so we check for the encoder and head explicitly
     def _is_evolvable_network(net: Any) -> bool:
-        return hasattr(net, "encoder") and hasattr(net, "head_net")
+        return isinstance(net, EvolvableNetwork) or (
+            hasattr(net, "encoder") and hasattr(net, "head_net")
+        )
 
     assert _is_evolvable_network(policy), "Policy must be an EvolvableNetwork"
     assert all(
